@@ -472,6 +472,45 @@ Proof.
   - intros s' Hs' Hw. apply (Hs s' Hs' _ Hw). apply in_or_app. left. now left.
 Qed.
 
+(* ... so that, at the end, the plan transform of the exogenized variable equals the conditioning series of the
+   input databox (which no earlier step has overwritten): x[t] for "none", log x[t], x[t]-x[t+shift], ... *)
+Theorem exogenized_hits_target pl pre t e post (d0 : data) pp v :
+  rbw pl (pre ++ (t, e) :: post) -> step_ok (t, e) ->
+  get_transform A pl e t = Some pp -> p_shift pp <> 0%Z ->
+  (forall r s', p_row pp = Some r -> In s' pre -> ~ In (r, t) (writes s')) ->
+  detect A (Some pp) (e_lhs e) t (run A pl pre d0) = Some v ->
+  let dN := run A pl (pre ++ (t, e) :: post) d0 in
+  plan_dom (p_kind pp) (dN (e_lhs e) (t + p_shift pp)%Z) ->
+  plan_of_level (p_kind pp) (dN (e_lhs e) t) (dN (e_lhs e) (t + p_shift pp)%Z)
+  = plan_target (p_kind pp) (match p_row pp with Some r => d0 r t | None => 0 end).
+Proof.
+  intros Hrbw Hok Hgt Hsh Hrow Hd dN Hdom.
+  assert (Hv : dN (e_lhs e) t = v).
+  { unfold dN. apply exogenized_value_final; [exact Hrbw | exact Hok | now rewrite Hgt]. }
+  (* the reference value is final at the time of the step *)
+  assert (Hlag : dN (e_lhs e) (t + p_shift pp)%Z = run A pl pre d0 (e_lhs e) (t + p_shift pp)%Z).
+  { unfold dN, run. rewrite fold_left_app. cbn [fold_left].
+    change (run A pl post (step A pl (t, e) (run A pl pre d0)) (e_lhs e) (t + p_shift pp)%Z
+            = run A pl pre d0 (e_lhs e) (t + p_shift pp)%Z).
+    pose proof Hrbw as Hrbw'. apply ordpairs_app in Hrbw' as [_ [[Hs _] _]].
+    pose (c := (e_lhs e, (t + p_shift pp)%Z)).
+    assert (Hc : In c (deps pl (t, e))).
+    { apply in_or_app. right. unfold plan_cells. rewrite Hgt. now left. }
+    pose proof (run_frame pl post (step A pl (t, e) (run A pl pre d0)) c) as Hf.
+    unfold at_, c in Hf; cbn [fst snd] in Hf. rewrite Hf by (intros s' Hs' Hw; exact (Hs s' Hs' _ Hw Hc)).
+    pose proof (step_frame pl (t, e) (run A pl pre d0) c) as Hg. unfold at_, c in Hg; cbn [fst snd] in Hg.
+    apply Hg. destruct Hok as [Hwf _]. unfold writes, res_cell, wf_eqn in *; cbn [fst snd].
+    intros [E|E]; [injection E as E; lia|]. destruct (e_res e) as [r|]; [|contradiction].
+    destruct E as [E|[]]. injection E as E1 E2. lia. }
+  rewrite Hlag in *. rewrite Hv.
+  unfold detect in Hd. destruct (p_when_data pp && _)%bool in Hd; [discriminate|]. injection Hd as <-.
+  destruct (p_row pp) as [r|] eqn:Hr.
+  - pose proof (run_frame pl pre d0 (r, t)) as Hf. unfold at_ in Hf; cbn [fst snd] in Hf.
+    rewrite Hf by (intros s' Hs'; now apply (Hrow r s')).
+    now apply plan_transform_implied.
+  - now apply plan_transform_implied.
+Qed.
+
 (* ---------- 6. the two execution orders ---------- *)
 
 (* tokens (row, shift) a step at period t depends on *)
